@@ -296,6 +296,23 @@ func c06BlockIndex(rows [][]string, pk []uint32) Res {
 		if _, err := idx.WriteTo(b1); err != nil {
 			return Err("write")
 		}
+		// the index ingest builds from the block's BYTES must be the one built from its rows
+		fromBytes := ""
+		if len(rows) > 0 {
+			bb := newBuf()
+			if _, err := objects.WriteBlockTo(objects.NewStrListEncoder(true), bb, rows); err != nil {
+				return Err("write-block")
+			}
+			idxB, err := objects.IndexBlockFromBytes(objects.NewStrListDecoder(true), meow.New(0), objects.NewStrListEditor(pk), bb.Bytes(), pk)
+			if err != nil {
+				return Err("index-from-bytes")
+			}
+			b4 := newBuf()
+			idxB.WriteTo(b4)
+			fromBytes = hx(b4.Bytes())
+		} else {
+			fromBytes = hx(b1.Bytes())
+		}
 		_, idx2, err := objects.ReadBlockIndex(bytes.NewReader(b1.Bytes()))
 		if err != nil {
 			return Err("read")
@@ -318,7 +335,7 @@ func c06BlockIndex(rows [][]string, pk []uint32) Res {
 		if err != nil {
 			return Err("parse")
 		}
-		return Ok(map[string]interface{}{"bytes": hx(b1.Bytes()), "reencoded": hx(b2.Bytes()), "fromStore": hx(b3.Bytes()),
+		return Ok(map[string]interface{}{"bytes": hx(b1.Bytes()), "reencoded": hx(b2.Bytes()), "fromStore": hx(b3.Bytes()), "fromBlockBytes": fromBytes,
 			"keyIsHash": bytes.Equal(sum, want[:]), "idx": parsed})
 	})
 }
@@ -372,6 +389,11 @@ func runC06(ctx *Ctx) {
 		pk := []uint32{}
 		if r.Intn(3) != 0 {
 			pk = append(pk, uint32(r.Intn(nc)))
+		}
+		if n > 0 && n < 10 && r.Intn(3) == 0 {
+			// a cell at the length limit, in the key or elsewhere
+			sz := []int{65533, 65534, 65535}[r.Intn(3)]
+			rows[r.Intn(n)][r.Intn(nc)] = string(bytes.Repeat([]byte{byte('a' + r.Intn(26))}, sz))
 		}
 		in := c06Input{Rows: hxRows(rows), PKIdx: pk}
 		if in.Rows == nil {
